@@ -76,6 +76,13 @@ def parseOp? (tok : String) : Option (Op GRat) :=
   | ["bigHne"] => some .readBigHNoExt
   | ["Hkne", k] => do some (.readHkNoExt (← k.toNat?))
   | ["Hne"] => some .readHNoExt
+  | ["layout"] => some .readLayout
+  | ["pl"] => some .readPL
+  | ["bigW"] => some .readBigWView
+  | ["nv"] => some .readNoiseVar
+  | ["ln"] => some .readLastNoise
+  | ["corruptc", x, "none"] => do some (.corruptCat (← parseMat? x) none)
+  | ["corruptc", x, n] => do some (.corruptCat (← parseMat? x) (some (← parseMat? n)))
   | ["corrupt", x, xe, "none"] => do some (.corrupt (← parseMats? x) (← parseMats? xe) none)
   | ["corrupt", x, xe, n] => do some (.corrupt (← parseMats? x) (← parseMats? xe) (some (← parseMat? n)))
   | _ => none
@@ -99,6 +106,11 @@ def showOut : Out GRat → String
   | .mat m => "mat=" ++ showMat m
   | .mom h => "mom=" ++ showMom h
   | .rx ys ln => "rx=" ++ showMats ys ++ "@" ++ (match ln with | none => "none" | some n => showMat n)
+  | .layout k nr nt nte =>
+    let nl (l : List Nat) : String := if l.isEmpty then "_" else showList toString l
+    "lay=" ++ toString k ++ ";" ++ nl nr ++ ";" ++ nl nt ++ ";" ++ nl nte
+  | .optMat m => "opt=" ++ (match m with | none => "none" | some n => showMat n)
+  | .optScalar v => "sc=" ++ (match v with | none => "none" | some x => showG x)
 
 def handle : List String → String
   | "run" :: cls :: cfg :: ops =>
